@@ -626,7 +626,7 @@ func TestStackShutdownWindow(t *testing.T) {
 func TestStackShutdownRace(t *testing.T) {
 	const check = "stack_shutdown_race"
 	stats.Rule(check, "free-running trials: one goroutine in PopOrWait(running), the other does running=false; SignalShutdown() after 0-3 yields; the waiter must return (ctl.HangTimeout); the interleaving is the scheduler's; counted as non-trivial: all (each trial races)")
-	trials := stats.Scale(3000, 4000) // per process; the thorough tier runs 16 processes
+	trials := stats.Scale(20000, 50000) // per process; the thorough tier runs 16 processes
 	for i := 0; i < trials; i++ {
 		s := syncutils.NewStack[int]()
 		var running atomic.Bool
